@@ -57,7 +57,11 @@ var bases = []string{
 	"t := {|x| x.p; x}§o := {§a: t(1),§b: t(2),§a: t(3)§}§m := %{§t(1): t(2),§t(1): t(3)§}§[o, m]§",
 	"t := {|x| x.p; x}§f := {|a: 0, b: 0| [a, b]}§f(§**t({a: 1}),§**t({b: 2})§)§f(**t({a: 3})§)§f(§1,§**t({b: 4})§)§f(§*t([5]),§b: t(6)§)§",
 	"t := {|x| x.p; x}§xs := [§*t([1]),§*t([2])§]§o := {§**t({a: 1}),§**t({b: 2})§}§m := %{§**t(%{1: 2}),§**t(%{3: 4})§}§[xs, o, m]§",
+	// multi-character tokens, each after a blank: whatever offset of the source they start at (see tokenWindow)
+	"a := 2§b := a ** 3 ** 2 - -a ** 2§c := a <=> 2 if a === 2 else a !== 3 // 2§d := [a, b]@{|i| i ** 2} + [a // 2]§e := a <= b && b >= a || a != b§[a, b, c, d, e]§",
 }
+
+const tokenWindowBase = 15
 
 // flat: the same programs written with every bracketed construct on one line (breaks only between statements):
 // the multi-line spelling of a base must be the same program as its one-line spelling
@@ -109,7 +113,9 @@ func padding(kind string, k int) string {
 		texts := []string{"# |@ not a chain |.p", "# x := \"unterminated { [ ( `", "# }> ]) }} ' ?c \\ \\1", "# |", "#|$", "# a | b || c |& d", "# #{ } #", "# if else return yield defer raise",
 			// line comments that look like the ends and the starts of block comments of other languages (closers first: a
 			// reader that took an opener for a block start would run on into the next padding, across the code between)
-			"# end of banner ]#", "# *# =# -# |# }# ># )# #]", "#]", "#[ config ]####", "#[1] step", "#[", "#* #= #- #| #{ #< #(", "#!/usr/bin/env pangaea", "#=begin", "#--[[", "#<<EOF"}
+			"# end of banner ]#", "# *# =# -# |# }# ># )# #]", "#]", "#[ config ]####", "#[1] step", "#[", "#* #= #- #| #{ #< #(", "#!/usr/bin/env pangaea", "#=begin", "#--[[", "#<<EOF",
+			// bytes that end a text elsewhere (C strings, terminals)
+			"# a NUL byte \x00 in a comment", "# \x1a \x04 \x1b[0m \x7f"}
 		i := 0
 		for sb.Len() < k || i < len(texts) {
 			sb.WriteString(texts[i%len(texts)] + "\n")
@@ -358,6 +364,17 @@ func gen(thorough bool, emit func(tcase)) {
 		for _, kind := range []string{"blank", "comment", "mixed", "indent", "trail"} {
 			for _, k := range []int{0, 1, 2, 100, 1023, 1024, 1025, 2047, 2048, 2049, 4096} {
 				emit(tcase{Mode: "pad", Base: bi, Mark: -1, Kind: kind, Size: k})
+			}
+		}
+		// every alignment of the following tokens relative to 4 KiB / 8 KiB / 64 KiB offsets of the source (a reader that
+		// takes the source block by block must not cut a token)
+		if bi == tokenWindowBase {
+			for _, kind := range []string{"blank", "comment", "indent"} {
+				for _, w := range [][2]int{{3980, 4110}, {8080, 8200}, {65400, 65545}} {
+					for k := w[0]; k <= w[1]; k++ {
+						emit(tcase{Mode: "pad", Base: bi, Mark: 0, Kind: kind, Size: k})
+					}
+				}
 			}
 		}
 		// the special comment texts at every line break at once (a comment of one padding must not reach the next one)
